@@ -94,6 +94,7 @@ PROPS = {
             dict(name="TestSQLite", quick=300, thorough=8000, shards_thorough=10, shrinktime="20s"),
             dict(name="TestSQLiteMemory", quick=150, thorough=3000, shards_thorough=2, shrinktime="20s"),
             dict(name="TestDurable", quick=1500, thorough=40000, shards_thorough=6, shrinktime="20s"),
+            dict(name="TestConcurrentAppend", quick=120, thorough=6000, shards_thorough=8, race=True, shrinktime="5s"),
             dict(name="TestKnownProbes", quick=1, thorough=1, shards_thorough=1, rapid=False),
             dict(name="FuzzRoundTrip", quick=0, thorough=120, shards_thorough=1, fuzz=True, rapid=False, fuzz_workers=8),
         ],
@@ -195,6 +196,7 @@ PROPS = {
             dict(name="TestRoundTripMemory", quick=2000, thorough=60000, shards_thorough=4),
             dict(name="TestRoundTripSQLite", quick=150, thorough=5000, shards_thorough=3, shrinktime="15s"),
             dict(name="TestRoundTripDurable", quick=300, thorough=10000, shards_thorough=2, shrinktime="15s"),
+            dict(name="TestNullEntities", quick=2000, thorough=200000, shards_thorough=4),
             dict(name="TestHostile", quick=20000, thorough=200000, shards_thorough=6),
             dict(name="FuzzApply", quick=0, thorough=180, shards_thorough=1, fuzz=True, rapid=False, fuzz_workers=8),
         ],
